@@ -355,8 +355,19 @@ impl<'c, 'd> Parser<'c, 'd> {
 
             // We need all parameters to this SpecConstantOp.
             for loperand in g.operands {
-                if loperand.kind != GOpKind::IdResultType && loperand.kind != GOpKind::IdResult {
-                    operands.append(&mut self.parse_operand(loperand.kind)?);
+                match loperand.kind {
+                    GOpKind::IdResultType | GOpKind::IdResult => {}
+                    // These kinds need context (a result type, a selector) that a nested
+                    // opcode does not have; no opcode allowed in OpSpecConstantOp uses them.
+                    GOpKind::LiteralContextDependentNumber
+                    | GOpKind::LiteralSpecConstantOpInteger
+                    | GOpKind::PairLiteralIntegerIdRef => {
+                        return Err(State::SpecConstantOpIntegerIncorrect(
+                            self.decoder.offset(),
+                            self.inst_index,
+                        ))
+                    }
+                    kind => operands.append(&mut self.parse_operand(kind)?),
                 }
             }
             Ok(operands)
